@@ -685,6 +685,58 @@ theorem glwe_pack_ok (rounds iters : Nat) (res : G) (k : K) (hn : n % 8 = 0) (hi
 example : (run (treeGlwePack .fft64 8 2 1 ⟨1, 2, 17⟩ ⟨1, 2, 17⟩ ⟨1, 1, 3, 17, 2, 1⟩) ⟨4096, tbGlwePack .fft64 8 ⟨1, 2, 17⟩ ⟨1, 1, 3, 17, 2, 1⟩⟩).isOk = true := by
   decide
 
+/-- `glwe_tensor_relinearize(res, a, tsk, tsk_size)` for any `tsk_size ≤ tsk.size()` -/
+theorem glwe_tensor_relinearize_ok (tskSize : Nat) (a : G) (t : K) (hn : n % 8 = 0) (hs : tskSize ≤ t.size) (w : Arena)
+    (h : tbGlweTensorRelinearize be n a t ≤ w.available) : (run (treeGlweTensorRelinearize be n tskSize a t) w).isOk = true :=
+  ok_of_facts (relinearize_facts be n tskSize a t hn hs) w h
+
+example : (run (treeGlweTensorRelinearize .fft64 8 4 ⟨1, 3, 13⟩ ⟨1, 1, 4, 17, 2, 2⟩) ⟨4096, tbGlweTensorRelinearize .fft64 8 ⟨1, 3, 13⟩ ⟨1, 1, 4, 17, 2, 2⟩⟩).isOk = true := by
+  decide
+
+/-- `cswap` with both operands in the selector's radix (the cross-radix branch of the pinned code panics in
+`glwe_sub` before any scratch question arises, see docs/C12.md §4) -/
+theorem cswap_ok (ra rb : G) (k : K) (hn : n % 8 = 0) (hrad : ra.b2k = k.b2k) (hb0 : 0 < k.b2k) (hd : 1 ≤ k.dsize) (w : Arena)
+    (h : tbCswap be n ra rb k ≤ w.available) : (run (treeCswap be n ra rb k) w).isOk = true :=
+  ok_of_facts (cswap_facts be n ra rb k hn hrad hb0 hd) w h
+
+example : (run (treeCswap .ntt120 8 ⟨1, 6, 7⟩ ⟨1, 1, 7⟩ ⟨1, 1, 3, 7, 3, 1⟩) ⟨4096, tbCswap .ntt120 8 ⟨1, 6, 7⟩ ⟨1, 1, 7⟩ ⟨1, 1, 3, 7, 3, 1⟩⟩).isOk = true := by
+  decide
+
+/-- CKKS operations built from modelled core operations: `ckks_rotate` / `ckks_conjugate`, the plaintext
+add/sub forms, `ckks_encrypt_sk`, `ckks_decrypt` -/
+theorem ckks_core_built_ok (ct : G) (k : K) (hn : n % 8 = 0) (hin : ct.rank = k.rankIn) (hout : ct.rank = k.rankOut) (w : Arena) :
+    (tbCkksRotate be n ct k ≤ w.available → (run (treeCkksRotate be n ct k) w).isOk = true) ∧
+    (tbCkksPtVecZnx n ≤ w.available → (run (treeCkksPtVecZnx n) w).isOk = true) ∧
+    (tbCkksEncryptSk be n ct.size ≤ w.available → (run (treeCkksEncryptSk be n ct) w).isOk = true) ∧
+    (tbCkksDecrypt be n ct.size ≤ w.available → (run (treeCkksDecrypt be n ct) w).isOk = true) :=
+  ⟨ok_of_facts (ckksRotate_facts be n ct k hn hin hout) w, ok_of_facts (ckksPtVecZnx_facts n) w,
+   ok_of_facts (ckksEncryptSk_facts be n ct hn) w, ok_of_facts (ckksDecrypt_facts be n ct hn) w⟩
+
+example : (run (treeCkksRotate .fft64 8 ⟨1, 3, 17⟩ ⟨1, 1, 4, 17, 3, 1⟩) ⟨4096, tbCkksRotate .fft64 8 ⟨1, 3, 17⟩ ⟨1, 1, 4, 17, 3, 1⟩⟩).isOk = true ∧
+    (run (treeCkksDecrypt .ntt120 8 ⟨1, 1, 17⟩) ⟨4096, tbCkksDecrypt .ntt120 8 1⟩).isOk = true := by decide
+
+/-- the monotonicity clause on a CKKS operation set (what `ckks_all_ops_with_atk_tmp_bytes` does for the whole
+evaluator): a scratch of the **maximum** of the queries of encrypt, decrypt, add/sub (ct and plaintext forms),
+neg/pow2/rescale/align, rotate and conjugate runs every one of them -/
+theorem ckks_max_serves_modelled_ops (ct : G) (k : K) (hn : n % 8 = 0) (hin : ct.rank = k.rankIn) (hout : ct.rank = k.rankOut) (w : Arena)
+    (h : max (tbCkksEncryptSk be n ct.size) (max (tbCkksDecrypt be n ct.size) (max (tbCkksShiftNorm n)
+          (max (tbCkksPtVecZnx n) (max (tbCkksShift n) (tbCkksRotate be n ct k))))) ≤ w.available) :
+    ∀ t ∈ [treeCkksEncryptSk be n ct, treeCkksDecrypt be n ct, treeCkksShiftNorm n, treeCkksPtVecZnx n, treeCkksShift n,
+            treeCkksRotate be n ct k], (run t w).isOk = true := by
+  obtain ⟨r1, r2, r3, r4⟩ := ckks_core_built_ok be n ct k hn hin hout w
+  intro t ht
+  simp only [List.mem_cons, List.mem_nil_iff, or_false] at ht
+  rcases ht with rfl | rfl | rfl | rfl | rfl | rfl
+  · exact r3 (by omega)
+  · exact r4 (by omega)
+  · exact ckks_shift_norm_ok n w (by omega)
+  · exact r2 (by omega)
+  · exact ckks_shift_ok n w (by omega)
+  · exact r1 (by omega)
+
+example : ∀ t ∈ [treeCkksEncryptSk .fft64 8 ⟨1, 2, 17⟩, treeCkksShift 8], (run t ⟨4096, tbCkksEncryptSk .fft64 8 2⟩).isOk = true := by
+  decide
+
 end batch2
 
 end C12
